@@ -68,6 +68,15 @@ def obligations(tier, seed=0):
         add('iv_muldiv', fn='mpi_square', prec=3, s=s)
         add('iv_muldiv', fn='mpi_mul_mpf', prec=3, s=s, t=[N(3, 1), N(3, 1)])
         add('iv_muldiv', fn='mpi_div_mpf', prec=3, s=s, t=[P(3, 1), P(3, 1)])
+    # products far longer than the precision (more than prec+10 bits), every sign pattern of the right operand, left operand
+    # straddling zero / one-signed
+    for s in ([N(7, 0), P(7, 0)], [P(6, 0), P(7, 1)], [N(7, 1), N(6, 0)]):
+        for t in ([N(7, 0), P(7, 0)], [P(7, 0), P(7, 1)], [N(7, 1), N(7, 0)]):
+            add('iv_muldiv', fn='mpi_mul', prec=2, s=s, t=t)
+    for s in ([N(8, 0), P(8, 0)], [N(5, 0), P(9, 0)]):
+        for t in ([P(7, 1), P(8, 1)], [N(8, 0), P(7, 1)], [N(8, 1), N(7, 0)]):
+            add('iv_muldiv', fn='mpi_mul', prec=2, s=s, t=t)
+    add('iv_muldiv', fn='mpi_square', prec=2, s=[N(8, 0), P(8, 0)])
     add('iv_muldiv', fn='mpi_mul', prec=3, s=S2[2], t=T2[2], entry='op')
     add('iv_muldiv', fn='mpi_div', prec=3, s=S2[0], t=T2[1], entry='op')
     add('iv_muldiv', fn='mpi_div', prec=3, s=S2[2], t=T2[2], entry='op')
